@@ -1,7 +1,8 @@
 CONSTANT IBug = "none"
 CONSTANT MaxI = 3
-CONSTANT MaxX = 4
+CONSTANT MaxX = 3
 CONSTANT Zero = FALSE
+CONSTANT ModeSet = {"det"}
 SPECIFICATION Spec
 INVARIANT PIrregular
 INVARIANT PWindow
